@@ -566,3 +566,56 @@ func makeClosureOf(fn *ssa.Function) *ssa.MakeClosure {
 	})
 	return out
 }
+
+// enumPaths lists the acyclic block paths from `from` to blocks without successors (bounded).
+func enumPaths(from *ssa.BasicBlock, max int) [][]*ssa.BasicBlock {
+	var out [][]*ssa.BasicBlock
+	on := map[*ssa.BasicBlock]bool{}
+	var cur []*ssa.BasicBlock
+	var dfs func(b *ssa.BasicBlock)
+	dfs = func(b *ssa.BasicBlock) {
+		if len(out) >= max || on[b] {
+			return
+		}
+		on[b] = true
+		cur = append(cur, b)
+		if len(b.Succs) == 0 {
+			out = append(out, append([]*ssa.BasicBlock(nil), cur...))
+		}
+		for k, s := range b.Succs {
+			if !deadEdge(b, k) {
+				dfs(s)
+			}
+		}
+		cur = cur[:len(cur)-1]
+		on[b] = false
+	}
+	dfs(from)
+	return out
+}
+
+// resolveAlong resolves phis of v along a concrete block path (path[pos] is where v is used).
+func resolveAlong(v ssa.Value, path []*ssa.BasicBlock, pos int) ssa.Value {
+	for depth := 0; depth < 16; depth++ {
+		phi, ok := v.(*ssa.Phi)
+		if !ok {
+			return v
+		}
+		i := -1
+		for j := pos; j >= 0; j-- {
+			if path[j] == phi.Block() {
+				i = j
+				break
+			}
+		}
+		if i <= 0 {
+			return v
+		}
+		pi := predIndex(path[i-1], phi.Block())
+		if pi < 0 {
+			return v
+		}
+		v, pos = phi.Edges[pi], i-1
+	}
+	return v
+}
